@@ -8,6 +8,7 @@ import (
 	"math/big"
 	"sort"
 	"strings"
+	"sync"
 	"testing"
 	"time"
 
@@ -260,6 +261,8 @@ func scenarios() []*scenario {
 			},
 		},
 	}
+	// the families for additions with overlapping side effects go FIRST (sharpest, see overlap_test.go)
+	scs = append(overlapScenarios(), scs...)
 	for _, s := range scs {
 		s.build()
 	}
@@ -432,6 +435,18 @@ func (in *inst) observe() (obs string, broken string) {
 			broken = "hasconflicts-vs-listing"
 		}
 	}
+	// second listing path: IterateVerifiedTransactions must walk the same transactions with their data.
+	k := 0
+	in.mp.IterateVerifiedTransactions(func(t *transaction.Transaction, d any) bool {
+		if k >= len(l) || sc.txs[l[k]].Hash() != t.Hash() || d != any(l[k]) {
+			broken = "iterate-vs-listing"
+		}
+		k++
+		return true
+	})
+	if k != len(l) {
+		broken = "iterate-vs-listing"
+	}
 	// Verify goes last: it may cache balances inside the pool (the instance is
 	// thrown away after observation, so that cannot leak into other paths).
 	for i, t := range sc.txs {
@@ -501,11 +516,26 @@ type explorer struct {
 	cap        int
 	depth      int
 	probeDepth int
+	preDepth   int // levels explored (and cached) by the shallow first pass
+	passDepth  int // depth limit of the running pass (set between passes)
+	quietUpTo  int // sequences up to this length were counted by an earlier pass (set between passes)
 	nodes      vk.Counter
 	execs      vk.Counter
 	probes     vk.Counter
 	states     *vk.Set
 	nontrivial vk.Counter
+	fam        *famStats // counters of the transition model / overlap families (shared by all explorers)
+	cmu        sync.Mutex
+	cache      map[string][]childEval // evaluations of the children of a shallow sequence
+}
+
+// childEval is what the evaluation of one sequence left for its siblings: the
+// result of its last operation and the full observation afterwards (the "pool
+// that never saw the failed Add" side of the failed-Add comparison).
+type childEval struct {
+	res, obs  string
+	ok, dead  bool
+	needProbe bool
 }
 
 func (e *explorer) replay(seq []int) (*inst, []string) {
@@ -529,57 +559,95 @@ func (e *explorer) rec(seq []int, res []string, broken, obs, extra string) caseR
 	return c
 }
 
+// report records a violation found at the end of seq.
+func (e *explorer) report(seq []int, kind, obs, extra string) {
+	sc := e.sc
+	last := sc.ops[seq[len(seq)-1]]
+	_, rs := e.replay(seq)
+	if kind == "solvency" && last.Kind == opAdd && len(rs) == len(seq) && rs[len(rs)-1] == "ok" && hasDupConflicts(sc.txs[last.Tx]) {
+		// The new transaction carries the same Conflicts hash twice. One key per transaction (the
+		// histories that reach it differ only in how the pool got its content; the shallow pass
+		// runs first, so the replay kept is a shortest one).
+		key := fmt.Sprintf("solvency-after-duplicate-conflicts-attr:%s:%s", sc.Name, last.Name)
+		e.r.Violation(key, e.rec(seq, rs, "solvency", obs, extra))
+		return
+	}
+	key := fmt.Sprintf("%s:%s:cap%d:%s", kind, sc.Name, e.cap, strings.Join(e.rec(seq, nil, "", "", "").Ops, ","))
+	e.r.Violation(key, e.rec(seq, rs, kind, obs, extra))
+}
+
 // node evaluates the sequence seq (all of whose proper prefixes were clean) and
-// returns false if it must not be extended (violation or dead instance).
-func (e *explorer) node(seq []int) bool {
-	e.nodes.Inc()
+// returns false if it must not be extended (violation or dead instance). With
+// deferProbe the one-step continuation comparison after a failed Add is left
+// to the caller (probeCached), which has the sibling evaluations at hand.
+func (e *explorer) node(seq []int, deferProbe bool) (bool, childEval) {
+	quiet := len(seq) <= e.quietUpTo // re-evaluation by a deeper pass: same checks, no counting
+	if !quiet {
+		e.nodes.Inc()
+	}
 	sc := e.sc
 	last := sc.ops[seq[len(seq)-1]]
 	pre, _ := e.replay(seq[:len(seq)-1])
 	before := pre.listing()
 	r := pre.apply(last)
 	in := pre
-	results := func() []string { _, rs := e.replay(seq); return rs }
-	report := func(kind, obs, extra string) {
-		key := fmt.Sprintf("%s:%s:cap%d:%s", kind, sc.Name, e.cap, strings.Join(e.rec(seq, nil, "", "", "").Ops, ","))
-		e.r.Violation(key, e.rec(seq, results(), kind, obs, extra))
+	ev := childEval{res: r}
+	report := func(kind, obs, extra string) { e.report(seq, kind, obs, extra) }
+	if !quiet {
+		e.r.Outcome(last.Name[:strings.IndexAny(last.Name+"(", "(")] + "->" + r)
 	}
-	e.r.Outcome(last.Name[:strings.IndexAny(last.Name+"(", "(")] + "->" + r)
 	if in.dead {
+		ev.dead = true
 		report("panic", "", r)
-		return false
+		return false, ev
 	}
 	obs, broken := in.observe()
+	ev.obs = obs
 	if broken != "" {
 		report(broken, obs, "")
-		return false
+		return false, ev
 	}
 	after := in.listing()
-	if e.states.Add(fmt.Sprintf("%s/%d/%s/%v/%d", sc.Name, e.cap, obs, in.f.bal, in.f.fpb)) {
+	if !quiet && e.states.Add(fmt.Sprintf("%s/%d/%s/%v/%d", sc.Name, e.cap, obs, in.f.bal, in.f.fpb)) {
 		if len(after) > 0 {
 			e.nontrivial.Inc()
 		}
 	}
-	if len(seq) <= 3 {
+	if !quiet && len(seq) <= 3 {
 		e.r.Sample(e.rec(seq, nil, "", obs, r))
+	}
+	var jKind, jExtra string
+	if last.Kind == opAdd {
+		var class string
+		jKind, jExtra, class = judgeAdd(sc, e.cap, in.f.bal, before, last.Tx, r, after)
+		if !quiet {
+			e.fam.add(sc, e.cap, before, last.Tx, r, class)
+		}
 	}
 	switch {
 	case last.Kind == opAdd && r != "ok":
 		// A failed Add leaves the pool unchanged: same listing...
 		if fmt.Sprint(before) != fmt.Sprint(after) {
 			report("failed-add-changed-listing", obs, fmt.Sprintf("before=%v after=%v", before, after))
-			return false
+			return false, ev
+		}
+		// ...the error has its documented reason and the model does not demand acceptance...
+		if jKind != "" {
+			report(jKind, obs, jExtra)
+			return false, ev
 		}
 		// ...and the same behaviour from here on (hidden state): every
 		// continuation up to probeDepth gives identical results and
 		// observations on a pool that never saw the failed Add.
 		pd := e.probeDepth
-		if pd > 1 && len(seq) >= e.depth && e.depth >= 5 {
+		if pd > 1 && len(seq) >= e.passDepth && e.passDepth >= 4 {
 			pd = 1 // deepest level of the thorough tier: one-step continuations only (keeps the run exhaustive within its budget)
 		}
-		if bad, extra := e.probe(seq, nil, pd); bad {
+		if deferProbe && pd == 1 {
+			ev.needProbe = true
+		} else if bad, extra := e.probe(seq, nil, pd); bad {
 			report("failed-add-changed-behaviour", obs, extra)
-			return false
+			return false, ev
 		}
 	case last.Kind == opAdd:
 		t := sc.txs[last.Tx]
@@ -599,24 +667,29 @@ func (e *explorer) node(seq []int) bool {
 		}
 		if len(evicted) > 1 {
 			report("evicted-more-than-one", obs, fmt.Sprintf("before=%v after=%v", before, after))
-			return false
+			return false, ev
 		}
 		if len(evicted) == 1 {
 			if len(after) < e.cap {
 				report("evicted-below-capacity", obs, fmt.Sprintf("before=%v after=%v", before, after))
-				return false
+				return false, ev
 			}
 			v := sc.txs[evicted[0]]
 			for _, i := range append(kept, last.Tx) {
 				if cmpPrio(v, sc.txs[i]) > 0 {
 					report("evicted-not-lowest", obs, fmt.Sprintf("before=%v after=%v evicted=%d", before, after, evicted[0]))
-					return false
+					return false, ev
 				}
 			}
 		}
 		if !am[last.Tx] {
 			report("add-ok-but-not-listed", obs, "")
-			return false
+			return false, ev
+		}
+		// exact effect: the model's removal set left, every bystander stayed, at most one lowest-priority capacity victim.
+		if jKind != "" {
+			report(jKind, obs, jExtra)
+			return false, ev
 		}
 	case last.Kind == opRemove:
 		want := []int{}
@@ -627,7 +700,7 @@ func (e *explorer) node(seq []int) bool {
 		}
 		if fmt.Sprint(want) != fmt.Sprint(after) {
 			report("remove-wrong-effect", obs, fmt.Sprintf("before=%v after=%v", before, after))
-			return false
+			return false, ev
 		}
 	case last.Kind == opBlock:
 		// refresh only removes, keeps relative order, drops rejected ones.
@@ -638,19 +711,29 @@ func (e *explorer) node(seq []int) bool {
 			}
 			if j == len(before) {
 				report("refresh-added-or-reordered", obs, fmt.Sprintf("before=%v after=%v", before, after))
-				return false
+				return false, ev
 			}
 		}
 		for _, d := range last.Drop {
 			for _, i := range after {
 				if i == d {
 					report("refresh-kept-rejected", obs, "")
-					return false
+					return false, ev
 				}
 			}
 		}
+		if kind, extra := judgeRefresh(sc, in.f, last.Drop, before, after); kind != "" {
+			report(kind, obs, extra)
+			return false, ev
+		}
 	}
-	return true
+	// the pool must behave like a fresh pool holding the same transactions (no stale hidden
+	// bookkeeping left by removals that happened for several reasons at once).
+	if kind, extra := e.rebuildDiff(in, seq, after, obs); kind != "" {
+		report(kind, obs, extra)
+		return false, ev
+	}
+	return true, ev
 }
 
 // probe compares pool(seq + cont) with pool(seq minus its last op + cont).
@@ -688,18 +771,83 @@ func (e *explorer) probe(seq []int, cont []int, left int) (bool, string) {
 	return false, ""
 }
 
-func (e *explorer) dfs(seq []int) {
-	if e.r.Expired() || e.r.TooMany() {
-		return
+// probeCached is probe for continuations of length one with the side "pool that
+// never saw the failed Add" taken from the sibling evaluations: pool(seq+k) must
+// give the result and the observation of pool(seq minus its last op + k).
+func (e *explorer) probeCached(seq []int, sib []childEval, obs string) bool {
+	for k := range e.sc.ops {
+		e.probes.Inc()
+		a, ra := e.replay(append(append([]int{}, seq...), k))
+		if len(ra) != len(seq)+1 || ra[len(seq)] != sib[k].res {
+			e.report(seq, "failed-add-changed-behaviour", obs, fmt.Sprintf("continuation [%s]: results with failed add %v, without [%s]", e.sc.ops[k].Name, ra[len(seq):], sib[k].res))
+			return false
+		}
+		if a.dead || sib[k].dead {
+			continue // both died the same way: reported on the plain path
+		}
+		if oa, _ := a.observe(); oa != sib[k].obs {
+			e.report(seq, "failed-add-changed-behaviour", obs, fmt.Sprintf("continuation [%s]: observation with failed add %q, without %q", e.sc.ops[k].Name, oa, sib[k].obs))
+			return false
+		}
 	}
-	if len(seq) > 0 && !e.node(seq) {
-		return
+	return true
+}
+
+func seqKey(seq []int) string {
+	b := make([]byte, len(seq))
+	for i, k := range seq {
+		b[i] = byte(k)
 	}
-	if len(seq) == e.depth {
-		return
+	return string(b)
+}
+
+// children evaluates seq+k for every op k (nil if the run had to stop). The
+// evaluations of the shallow levels are kept: the second pass starts from them.
+func (e *explorer) children(seq []int) []childEval {
+	shallow := len(seq)+1 <= e.preDepth
+	if shallow {
+		e.cmu.Lock()
+		ce, ok := e.cache[seqKey(seq)]
+		e.cmu.Unlock()
+		if ok {
+			return ce
+		}
+	}
+	ce := make([]childEval, len(e.sc.ops))
+	for k := range e.sc.ops {
+		if e.r.Expired() || e.r.TooMany() {
+			return nil
+		}
+		ok, ev := e.node(append(append([]int{}, seq...), k), true)
+		ev.ok = ok
+		ce[k] = ev
 	}
 	for k := range e.sc.ops {
-		e.dfs(append(append([]int{}, seq...), k))
+		if ce[k].ok && ce[k].needProbe {
+			if e.r.Expired() || e.r.TooMany() {
+				return nil
+			}
+			ce[k].ok = e.probeCached(append(append([]int{}, seq...), k), ce, ce[k].obs)
+		}
+	}
+	if shallow {
+		e.cmu.Lock()
+		e.cache[seqKey(seq)] = ce
+		e.cmu.Unlock()
+	}
+	return ce
+}
+
+// expand explores everything below seq (itself evaluated and clean) down to depth.
+func (e *explorer) expand(seq []int, depth int) {
+	if len(seq) >= depth {
+		return
+	}
+	ce := e.children(seq)
+	for k := range ce {
+		if ce[k].ok {
+			e.expand(append(append([]int{}, seq...), k), depth)
+		}
 	}
 }
 
@@ -714,24 +862,50 @@ func TestCheck(t *testing.T) {
 	depth := vk.Pick(r, 4, 5)
 	probeDepth := vk.Pick(r, 1, 2)
 	states := vk.NewSet()
+	fam := newFamStats()
 	var nodes, execs, probes, nontriv int64
 	type job struct {
 		e     *explorer
-		first []int
+		first int
 	}
+	preDepth := min(3, depth)
 	var jobs []job
 	var exps []*explorer
-	for _, sc := range scs {
+	for _, sc := range scs { // overlap families first
 		for _, c := range sc.Caps {
-			e := &explorer{r: r, sc: sc, cap: c, depth: depth, probeDepth: probeDepth, states: states}
+			e := &explorer{r: r, sc: sc, cap: c, depth: depth, probeDepth: probeDepth, preDepth: preDepth, states: states, fam: fam, cache: map[string][]childEval{}}
 			exps = append(exps, e)
 			for k := range sc.ops {
-				jobs = append(jobs, job{e, []int{k}})
+				jobs = append(jobs, job{e, k})
 			}
 		}
 	}
-	// iterative deepening by shards: every first op is its own shard.
-	r.Parallel(len(jobs), func(i int) { jobs[i].e.dfs(jobs[i].first) })
+	// Shards: every first op of every (scenario, capacity). Pass 0 evaluates the sequences of length
+	// one, pass 1 everything up to preDepth (so the first counterexample reported is a short one and
+	// every scenario is covered to that depth before anything deep starts), pass 2 continues from the
+	// kept evaluations of pass 1 down to the full depth.
+	for _, e := range exps {
+		e.passDepth = preDepth
+	}
+	r.Parallel(len(exps), func(i int) { exps[i].children(nil) })
+	passes := []int{preDepth}
+	for d := preDepth + 1; d <= depth; d++ {
+		passes = append(passes, d) // thorough: all scenarios at depth 4 (the quick tier's coverage) before any at depth 5
+	}
+	for pi, d := range passes {
+		for _, e := range exps {
+			e.passDepth = d
+			if pi >= 2 {
+				e.quietUpTo = passes[pi-1] // levels beyond the kept ones are walked again by the next pass
+			}
+		}
+		r.Parallel(len(jobs), func(i int) {
+			e, k := jobs[i].e, jobs[i].first
+			if root := e.children(nil); root != nil && root[k].ok {
+				e.expand([]int{k}, d)
+			}
+		})
+	}
 	for _, e := range exps {
 		nodes += e.nodes.Get()
 		execs += e.execs.Get()
@@ -742,7 +916,7 @@ func TestCheck(t *testing.T) {
 	for _, sc := range scs {
 		alpha = append(alpha, fmt.Sprintf("%s: %d txs, %d ops, capacities %v", sc.Name, len(sc.Txs), len(sc.ops), sc.Caps))
 	}
-	r.Finish(map[string]any{
+	cov := map[string]any{
 		"states":                        states.Len(),
 		"transitions":                   int(nodes),
 		"traces_validated_against_impl": int(nodes),
@@ -750,12 +924,15 @@ func TestCheck(t *testing.T) {
 		"distinct_nontrivial":           int(nontriv),
 		"rule":                          "every operation sequence up to the depth over each scenario alphabet on a fresh real mempool.Pool; a state is distinct by its full exported observation + feer; non-trivial = non-empty pool",
 		"depth":                         depth,
+		"pass_depths":                   passes,
 		"failed_add_probe_depth":        probeDepth,
-		"failed_add_probe_depth_note":   "continuations of length <= probe depth after every failed Add; at the deepest level of a depth-5 run the continuation length is 1",
+		"failed_add_probe_depth_note":   "continuations of length <= probe depth after every failed Add; at the deepest level of a pass of depth >= 4 the continuation length is 1",
 		"probe_continuations":           int(probes),
 		"pool_replays":                  int(execs),
 		"scenarios":                     alpha,
-	}, []string{
+	}
+	fam.export(cov)
+	r.Finish(cov, []string{
 		"balances change only together with RemoveStale (as on a real node, where both happen at block acceptance)",
 		"ties in (priority, fee per byte, network fee) may be ordered and evicted either way",
 		"the search runs on the implementation itself: every transition is a call into pkg/core/mempool",
@@ -772,10 +949,10 @@ func replay(r *vk.Run, scs []*scenario) {
 		if sc.Name != c.Scenario {
 			continue
 		}
-		e := &explorer{r: r, sc: sc, cap: c.Capacity, depth: len(c.OpIdx), probeDepth: vk.Pick(r, 1, 2), states: vk.NewSet()}
+		e := &explorer{r: r, sc: sc, cap: c.Capacity, depth: len(c.OpIdx), probeDepth: vk.Pick(r, 1, 2), passDepth: max(len(c.OpIdx), 5), states: vk.NewSet(), fam: newFamStats()}
 		outs := map[string]bool{}
 		for i := 0; i < 5; i++ {
-			ok := e.node(c.OpIdx)
+			ok, _ := e.node(c.OpIdx, false)
 			outs[fmt.Sprint(ok)] = true
 		}
 		b, _ := json.Marshal(c.Ops)
